@@ -36,8 +36,8 @@ ASSUMPTIONS = [
     'are matched by argN like type s (the DBus specification restricts argN to type s)',
     'rule values are str and argument indexes are non-negative int (what client.addMatch can put into a rule '
     'text); int() in Bus.dbus_AddMatch is modelled for ASCII letters and digits only',
-    'callbacks raise subclasses of Exception (Rule.match catches BaseException; a narrower `except Exception` '
-    'would be an equivalent rewrite for this check)',
+    'callbacks raise subclasses of Exception and, for odd tags, of BaseException outside the Exception hierarchy (Rule.match catches '
+    'BaseException: "regardless of other callbacks raising")',
     'callbacks that re-enter the router do so through router.delMatch / router.addMatch with a passive callback; '
     'on the client the table only changes when an AddMatch / RemoveMatch reply arrives, never during routing',
     'for callbacks that change the rule table during a route the property is read as: a rule registered when the '
@@ -133,6 +133,17 @@ def key(x):
 
 # ---------------------------------------------------------------------------------------------
 # the implementation side
+class CbOdd(BaseException):
+    """a callback may raise ANYTHING ("regardless of other callbacks raising"): exceptions outside the Exception hierarchy
+    (GeneratorExit, asyncio.CancelledError ... are BaseException) included"""
+
+
+def cb_raise(tag):
+    if tag % 2:
+        raise CbOdd('callback %d' % tag)
+    raise CbError('callback %d' % tag)
+
+
 class CbError(Exception):
     pass
 
@@ -433,7 +444,7 @@ class HistRun:
                     self.log.append(('add', b2[0], a[1]))
             if raises:
                 RAISED[0] += 1
-                raise CbError('callback %d' % tag)
+                cb_raise(tag)
         return cb
 
     def step(self, e):
@@ -444,14 +455,14 @@ class HistRun:
             try:
                 box[0] = self.router.addMatch(self.make_cb(e[2][0], e[2][1], e[2][2], box),
                                               **Impl.router_kwargs(e[1], self.flip))
-            except Exception as x:
+            except (Exception, CbOdd) as x:
                 return [0, [0, exc_code(x)]], None
             self.registered[box[0]] = e[1]
             return [0, [1, box[0]]], None
         if e[0] == 1:
             try:
                 self.router.delMatch(e[1])
-            except Exception as x:
+            except (Exception, CbOdd) as x:
                 return [1, [0, exc_code(x)]], None
             self.registered.pop(e[1], None)
             return [1, [1]], None
@@ -461,7 +472,7 @@ class HistRun:
         esc = [1]
         try:
             self.router.routeMessage(m)
-        except Exception as x:
+        except (Exception, CbOdd) as x:
             esc = [0, exc_code(x)]
         log, self.log = self.log, None
         called = sorted([i, t] for k, i, t in [x for x in log if x[0] == 'call'])
@@ -491,7 +502,7 @@ class ClientRun:
                 self.log.append(('call', box[0], tag))
                 if raises:
                     RAISED[0] += 1
-                    raise CbError('callback %d' % tag)
+                    cb_raise(tag)
             self.flip = not self.flip
             nout = len(p.transport.out)
             d = p.addMatch(cb, **Impl.client_kwargs(e[1], self.flip))
@@ -519,7 +530,7 @@ class ClientRun:
             nout = len(p.transport.out)
             try:
                 d = p.delMatch(e[1])
-            except Exception as x:
+            except (Exception, CbOdd) as x:
                 return [1, [0, exc_code(x)]], None
             got = []
             d.addCallbacks(lambda _: got.append([1]), lambda f: got.append([0, exc_code(f.value)]))
@@ -540,7 +551,7 @@ class ClientRun:
         esc = [1]
         try:
             p.dataReceived(I.raw(e[1]))
-        except Exception as x:
+        except (Exception, CbOdd) as x:
             esc = [0, exc_code(x)]
         log, self.log = self.log, None
         called = sorted([i, t] for k, i, t in log)
@@ -617,12 +628,12 @@ class DaemonRun:
                 self.log.append(('call', box[0], tag))
                 if raises:
                     RAISED[0] += 1
-                    raise CbError('callback %d' % tag)
+                    cb_raise(tag)
             self.flip = not self.flip
             got = []
             try:
                 d = p.addMatch(cb, **Impl.client_kwargs(e[1], self.flip))
-            except Exception as x:
+            except (Exception, CbOdd) as x:
                 return [0, self.pump(), [0, exc_code(x)]], None
             d.addCallbacks(lambda i: got.append([1, i]), lambda f: got.append([0, exc_code(f.value)]))
             wires = self.pump()
@@ -636,7 +647,7 @@ class DaemonRun:
             got = []
             try:
                 d = p.delMatch(e[1])
-            except Exception as x:
+            except (Exception, CbOdd) as x:
                 return [1, self.pump(), [0, exc_code(x)]], ('del', live, None)
             d.addCallbacks(lambda _: got.append([1]), lambda f: got.append([0, exc_code(f.value), f.value]))
             wires = self.pump()
@@ -654,7 +665,7 @@ class DaemonRun:
         if fwd:
             try:
                 p.dataReceived(self.I.raw(e[1]))
-            except Exception as x:
+            except (Exception, CbOdd) as x:
                 esc = [0, exc_code(x)]
         self.pump()
         log, self.log = self.log, None
@@ -844,7 +855,7 @@ def evaluate(ctx, cases, res):
             try:
                 r.addMatch(lambda m: calls.append(1), **Impl.router_kwargs(rule))
                 added = 1
-            except Exception as x:
+            except (Exception, CbOdd) as x:
                 added = 0
             esc = 0
             try:
